@@ -931,6 +931,10 @@ func Run(c *core.Ctx) int {
 			nEx++
 		}
 	}
+	onlyRequestLevel := os.Getenv("C14_ONLY") == "request-level" // testing hook: only the families of bulkreq.go / reqopts.go
+	if onlyRequestLevel {
+		cases = nil
+	}
 	var inproc, isolated []tcase
 	for _, t := range cases {
 		if t.Stream == "bulk-inproc" {
@@ -947,7 +951,9 @@ func Run(c *core.Ctx) int {
 	noteStreamTimes(c)
 	// the smallest such input, always
 	fatalInputs = append(fatalInputs, tcase{Stream: "json", Doc: `{"$schema":"` + selfSchemaID + `"}`})
-	external(c, goblBin, exs, ids, panicking, quiet, fatalInputs)
+	if !onlyRequestLevel {
+		external(c, goblBin, exs, ids, panicking, quiet, fatalInputs)
+	}
 	c.Note("command line and bulk sample done after %.1fs", time.Since(t0).Seconds())
 	externalExtra(c, goblBin, exs, bases) // request-level families of the bulk endpoint and the command line (bulkreq.go)
 	c.Note("request-level families done after %.1fs", time.Since(t0).Seconds())
@@ -1151,11 +1157,30 @@ func judgeAborted(c *core.Ctx, t tcase, r clibin.Res, inproc []panicRec) {
 	c.Fail(classifier(t.Via, site), fmt.Sprintf("gobl %s aborted (exit %d) by a panic at %s that the in-process run of the same input does not show: %s", t.Via, r.Code, site, tail(r.Err, 400)), t)
 }
 
+// envelopeDocWithoutSchema: the input is an envelope whose `doc` is an object that names no schema
+// (no `$schema`, or one that is null or empty): json.Unmarshal reads it into a schema.Object
+// without payload, which cannot be written again.
+func envelopeDocWithoutSchema(data []byte) bool {
+	top, ok := envelopeLike(data)
+	if !ok {
+		return false
+	}
+	d, ok := top["doc"].(map[string]any)
+	if !ok {
+		return false
+	}
+	s, _ := d["$schema"].(string)
+	return s == ""
+}
+
 // failCLI reports a command-line error that is not structured as documented;
 // the classifier names the kind of defect and the kind of invocation.
 func failCLI(c *core.Ctx, cls, what string, t tcase) {
 	if t.Stream == "usage" {
 		cls += ":usage"
+	}
+	if cls == "c14.clierr:encoding-failure-unkeyed" && envelopeDocWithoutSchema([]byte(t.Doc)) {
+		cls = "c14.clierr:schemaless-doc-unencodable" // predicate over the input (known finding)
 	}
 	c.Count("cli-issue:"+cls, 1)
 	if !cliNoted[cls+t.Via] && len(cliNoted) < 40 {
@@ -1457,6 +1482,10 @@ func external(c *core.Ctx, goblBin string, exs []example, ids []string, panickin
 func replay(c *core.Ctx, t tcase, goblBin string) {
 	if t.Via == "bulk-stream" {
 		replayBulkStream(c, t, goblBin)
+		return
+	}
+	if strings.HasPrefix(t.Via, "http:") {
+		replayHTTP(c, t, goblBin)
 		return
 	}
 	if t.Via == "" {
